@@ -93,10 +93,11 @@ def contract(cfg: Dict[str, Any], events: List[List[Any]], status: str) -> List[
         bad.append("SameNodesForAll")
     # documented meaning of the pruning exceptions
     visited = {1: True}
+    dropped = (cfg.get("edit") or {}).get("drop", 0)
     for x in range(2, n + 1):
         px = parent[x - 1]
         elder = [y for y in range(2, x) if parent[y - 1] == px]
-        visited[x] = (visited[px] and prune[px - 1] not in ("SkipChildren", "SkipNode")
+        visited[x] = (visited[px] and x != dropped and prune[px - 1] not in ("SkipChildren", "SkipNode")
                       and not any(visited[s] and prune[s - 1] in ("SkipSiblings", "DepartSkipSiblings", "SkipSiblingsDepartError") for s in elder))
     if any(seen("main", "visit", x) != visited[x] for x in range(1, n + 1)):
         bad.append("PruningMeans")
@@ -129,6 +130,7 @@ def run_real(cfg: Dict[str, Any]) -> Tuple[List[List[Any]], str]:
     n, parent, prune = cfg["n"], cfg["parent"], cfg["prune"]
 
     nest = cfg.get("nest") or {"at": 0}
+    edit = cfg.get("edit") or {"at": 0}
     prune = list(prune) + [nest.get("prune", "none")]       # node n + 1: the root of the detached tree of an inner traversal
 
     class Nd:
@@ -153,6 +155,8 @@ def run_real(cfg: Dict[str, Any]) -> Tuple[List[List[Any]], str]:
 
         def visit_Nd(self, ob):
             events.append(["main", "visit", ob.i])
+            if edit.get("at") == ob.i:
+                ob.kids = [k for k in ob.kids if k.i != edit["drop"]]       # in-place edit of the node being entered
             if nest["at"] == ob.i and nest["when"] == "visit":
                 getattr(self, nest["how"])(nodes[n + 1])          # a traversal of its own, with this very visitor
             k = prune[ob.i - 1]
@@ -344,6 +348,7 @@ CONSTANTS MaxN = {maxn}
           Modes = {{"walk", "walkabout"}}
           Histories = {hists}
           Nestings = {nestings}
+          Edits = {edits}
           NestedMaxPruned = {nmp}
 CONSTRAINT EmitTerminal
 INVARIANT NestedContract
@@ -364,6 +369,7 @@ CONSTANTS MaxN = 0
           Modes = {}
           Histories = {}
           Nestings = {}
+          Edits = {}
           NestedMaxPruned = 0
 CONSTRAINT EmitTerminal
 """
@@ -383,7 +389,7 @@ def run(ctx: Ctx) -> int:
     rng = random.Random(ctx.seed)
     maxn = 3 if ctx.quick else 4
     # ---- spec -> code
-    r = ctx.tlc("Visitor", CFG_ENUM.format(maxn=maxn, hists='{"fresh", "rewalk", "lateadd"}', nestings='{"none"}', nmp=0), workers="auto", check=False,
+    r = ctx.tlc("Visitor", CFG_ENUM.format(maxn=maxn, hists='{"fresh", "rewalk", "lateadd"}', nestings='{"none"}', nmp=0, edits='{"none"}'), workers="auto", check=False,
                 coverage=ctx.quick, timeout=3000)
     if r.errors or (r.rc != 0 and not r.violated):
         raise MachineryError(f"TLC failed: {r.errors[:3]} rc={r.rc}\n" + "\n".join(r.out.splitlines()[-30:]))
@@ -394,13 +400,19 @@ def run(ctx: Ctx) -> int:
     nested_recs: List[Dict[str, Any]] = []
     design_violations = list(r.violated)
     for mn, nmp in nested_runs:
-        rn = ctx.tlc("Visitor", CFG_ENUM.format(maxn=mn, hists='{"fresh"}', nestings='{"nested"}', nmp=nmp), workers="auto", check=False, timeout=3000)
+        rn = ctx.tlc("Visitor", CFG_ENUM.format(maxn=mn, hists='{"fresh"}', nestings='{"nested"}', nmp=nmp, edits='{"none"}'), workers="auto", check=False, timeout=3000)
         if rn.errors or (rn.rc != 0 and not rn.violated):
             raise MachineryError(f"TLC failed (nested): {rn.errors[:3]} rc={rn.rc}\n" + "\n".join(rn.out.splitlines()[-30:]))
         design_violations += list(rn.violated)
         nested_recs += rn.printed
+    # in-place edits: the visit_* of one node removes one of its own children
+    re_ = ctx.tlc("Visitor", CFG_ENUM.format(maxn=maxn, hists='{"fresh"}', nestings='{"none"}', nmp=0, edits='{"drop"}'), workers="auto", check=False, timeout=3000)
+    if re_.errors or (re_.rc != 0 and not re_.violated):
+        raise MachineryError(f"TLC failed (edits): {re_.errors[:3]} rc={re_.rc}\n" + "\n".join(re_.out.splitlines()[-30:]))
+    design_violations += list(re_.violated)
+    ctx.extra["configurations_with_an_in_place_edit"] = len(re_.printed)
     ctx.exhaustive = True
-    recs = r.printed + nested_recs
+    recs = r.printed + nested_recs + re_.printed
     ctx.extra["configurations_with_an_inner_traversal"] = len(nested_recs)
     if not recs:
         raise MachineryError("TLC emitted no behaviour")
